@@ -10,7 +10,8 @@ from rules.trie import r03_6
 from rules.builder import r09_5
 from rules.prefilter import r05_8
 from rules.prefilter import r05_10
-RULES = [('R11.1', r11_1), ('R11.2', r11_2), ('R11.3', r11_3), ('R11.4', r05_4), ('R11.5', r11_5), ('R11.6', r20_1), ('R20.5', r20_5), ('R03.6', r03_6), ('R09.5', r09_5), ('R05.8', r05_8), ('R05.10', r05_10)]
+from rules.layout import r04_5_reader
+RULES = [('R11.1', r11_1), ('R11.2', r11_2), ('R11.3', r11_3), ('R11.4', r05_4), ('R11.5', r11_5), ('R11.6', r20_1), ('R20.5', r20_5), ('R03.6', r03_6), ('R09.5', r09_5), ('R05.8', r05_8), ('R05.10', r05_10), ('R04.5r', r04_5_reader)]
 EXPLANATION = """R11.1 opposite_ascii_case, evaluated as a decision table over the full byte domain 0..=255: A-Z -> to_ascii_lowercase(b), a-z ->
 to_ascii_uppercase(b), every other byte (including '@', '[', '`', '{' and bytes >= 0x80) unchanged. R11.2 case pairing: each of the
 five places where a pattern byte is registered (trie edge, byte-class set, start-byte set, rare-byte offset, rare-byte set) has a twin
